@@ -233,7 +233,7 @@ def c20(work, tier, seed):
         v = state_vars(nodes[n])
         inits.append((parse_tla_value(v["req"]), parse_tla_value(v["beh"])))
     inits.sort(key=lambda x: json.dumps(x, sort_keys=True))
-    sizes = [0, 1, 100, 1400, 60000, 131000 - 200]
+    SIZE = {"s0": 0, "s3": 0, "s4": 0, "s1400": None, "s60000": 60000, "smax": 131000 - 200}
     scripts = []
 
     def conc(b, h):
@@ -244,27 +244,37 @@ def c20(work, tier, seed):
         return {"tcp": b, "udp": "silent"}
     chosen = inits
     if tier == "quick":
-        # all request classes with one KDC environment each + every KDC behaviour pair for the valid request
+        # every request class with one KDC environment each (sizes rotating) + for the valid request every
+        # (size class, behaviour of each KDC) combination with the realm alternating
         valid = [x for x in inits if x[0]["method"] == "POST" and x[0]["len"] == "ok" and x[0]["body"] == "valid" and x[0]["realm"] != "unknown"]
         other = [x for x in inits if x not in valid]
         rng.shuffle(other)
         seen, keep = set(), []
         for x in other:
-            k = json.dumps(x[0], sort_keys=True)
+            k = json.dumps({a: b for a, b in x[0].items() if a != "size"}, sort_keys=True)
             if k not in seen:
                 seen.add(k)
                 keep.append(x)
+        seenv, keepv = set(), []
         rng.shuffle(valid)
-        chosen = keep + valid[:70]
+        for x in valid:
+            k = json.dumps([x[0]["size"], x[1]], sort_keys=True)
+            if k not in seenv:
+                seenv.add(k)
+                keepv.append(x)
+        chosen = keep + keepv
     for i, (req, beh) in enumerate(chosen):
         h = stable_hash(json.dumps([req, beh], sort_keys=True) + str(seed))
         kd = [conc(beh[k], h + j) for j, k in enumerate(sorted(beh))]
         if h % 5 == 0:
             kd = kd[:1]
-        elif h % 7 == 0:
+        elif h % 7 == 0 and "reply" in beh.values():
             kd = kd + [conc("reply", h)]
+        size = SIZE[req["size"]]
+        if size is None:
+            size = [1, 100, 1400, 5000][h % 4]
         scripts.append({"id": "q%05d" % i, "method": ["GET", "PUT", "DELETE"][h % 3] if req["method"] == "GET" else "POST", "len": req["len"], "body": req["body"], "realm": req["realm"],
-                        "size": sizes[h % len(sizes)], "kdcs": kd, "target": "handler"})
+                        "size": size, "sizecls": req["size"], "kdcs": kd, "target": "handler"})
     out, rep, res = generic("C20", work, tier, seed, "kdc", "KdcTrace", scripts, design,
                             lambda v: "%s/%s" % (v["guard"], "valid" if v["a"].startswith("POST.ok.valid") else v["a"]),
                             "KdcProxy.tla: request classes x KDC behaviours for 2 KDCs, safety invariants and liveness (every request is answered) under fairness (design). Conformance: requests enumerated by TLC "
